@@ -1,2 +1,74 @@
-(* Props/C07.v — placeholder until Proofs/RecurP.v lands; replaced below in this round. *)
-From CG Require Import Spec.RecurSpec.
+(* Props/C07.v — C07: recurring patterns expand to the RFC 5545 occurrences in local wall-clock
+   time.  Only statements, each closed by an existing lemma and followed by Print Assumptions.
+   What is proved so far are the calendar facts the model and the reference series rest on; the
+   end-to-end statement (fetch_forward = spec_occurrences) is not proved — it is checked on
+   every run by the oracle over the generated cases (see the report / MANIFEST). *)
+From CG Require Import Model.Civil Proofs.CivilP.
+
+(* the day number <-> (year, month, day) conversion used by model and spec is a bijection onto
+   valid Gregorian dates, for every day number (not just the tested range) *)
+Theorem C07_civil_roundtrip : forall z,
+  let '(y, m, d) := civil_from_days z in days_from_civil y m d = z /\ valid_date y m d = true.
+Proof. exact civil_roundtrip. Qed.
+Print Assumptions C07_civil_roundtrip.
+
+(* weekdays repeat every 7 days and the week of a date starts on the Monday on or before it *)
+Theorem C07_weekday_periodic : forall d k, weekday (d + 7 * k) = weekday d.
+Proof. exact weekday_periodic. Qed.
+Print Assumptions C07_weekday_periodic.
+
+Theorem C07_monday_of_week : forall d, weekday (d - weekday d) = 0 /\ d - 6 <= d - weekday d <= d.
+Proof. exact monday_of_week. Qed.
+Print Assumptions C07_monday_of_week.
+
+(* months have 28..31 days, years 365..366: the look-back buffer's "32 days" / "366 days" per
+   period are upper bounds *)
+Theorem C07_month_length : forall y m, 28 <= dim y m <= 31.
+Proof. exact dim_bounds. Qed.
+Print Assumptions C07_month_length.
+
+Theorem C07_year_length : forall y, 365 <= diy y <= 366.
+Proof. exact diy_bounds. Qed.
+Print Assumptions C07_year_length.
+
+(* ---- the phase-aligned anchor (_get_safe_anchor) ---- *)
+From CG Require Import Model.Recur Spec.RecurSpec Proofs.RecurP.
+
+(* a valid date survives the trip through its day number (so the dtstart handed to rrule has the
+   calendar fields the anchor computation chose) *)
+Theorem C07_civil_from_days_from_civil : forall y m d,
+  valid_date y m d = true -> civil_from_days (days_from_civil y m d) = (y, m, d).
+Proof. exact civil_from_days_from_civil. Qed.
+Print Assumptions C07_civil_from_days_from_civil.
+
+(* whatever look-back date sd the window leads to — arbitrarily far before or after the anchor —
+   the rrule dtstart lies in a period whose index (in the numbering of the reference series) is
+   congruent to that of the base anchor date modulo the interval: the cadence keeps its phase *)
+Theorem C07_anchor_phase : forall (r : rule) (sd a : Z),
+  0 < r_interval r ->
+  safe_anchor r sd = Some a ->
+  (period_of (r_freq r) (cdate_of a) - period_of (r_freq r) (cdate_of (base_day r))) mod r_interval r = 0.
+Proof. exact anchor_phase. Qed.
+Print Assumptions C07_anchor_phase.
+
+(* and it has the weekday / day of month / month of the base anchor date, which is what rrule
+   derives the missing BYxxx parts from *)
+Theorem C07_anchor_template : forall (r : rule) (sd a : Z),
+  0 < r_interval r ->
+  safe_anchor r sd = Some a ->
+  match r_freq r with
+  | Daily => True
+  | Weekly => weekday a = weekday (base_day r)
+  | Monthly => day_of a = day_of (base_day r)
+  | Yearly => day_of a = day_of (base_day r) /\ month_of a = month_of (base_day r)
+  end.
+Proof. exact anchor_template. Qed.
+Print Assumptions C07_anchor_template.
+
+(* it does not lie in a later period than the look-back date *)
+Theorem C07_anchor_not_late : forall (r : rule) (sd a : Z),
+  0 < r_interval r ->
+  safe_anchor r sd = Some a ->
+  period_of (r_freq r) (cdate_of a) <= period_of (r_freq r) (cdate_of sd).
+Proof. exact anchor_not_late_period. Qed.
+Print Assumptions C07_anchor_not_late.
